@@ -101,6 +101,7 @@ type c17Sim struct {
 	set       map[string]struct{} // model of the live element set
 	committed map[string]struct{} // model of what the committer holds
 	dirty     bool                // model of "modified since last commit"
+	viaEvict  bool                // reload persists through Evict(true) instead of an explicit Commit
 
 	// statistics for the non-trivial rule / labels
 	collapseReload int // deletes that collapsed a branch into a leaf and needed a page load
@@ -112,6 +113,7 @@ type c17Sim struct {
 	crashes        int
 	rootChecks     int
 	opLoads        int
+	emptyOuts      int
 }
 
 func c17Copy(m map[string]struct{}) map[string]struct{} {
@@ -271,6 +273,11 @@ func (s *c17Sim) reload(cfg MemoryConfig, crash bool) error {
 		s.set = c17Copy(s.committed)
 		s.dirty = false
 		s.crashes++
+	} else if s.viaEvict {
+		// persist through Evict(true) only: it commits iff the cache believes it is modified
+		if err := s.evict(true); err != nil {
+			return err
+		}
 	} else if err := s.commit(); err != nil {
 		return err
 	}
@@ -280,6 +287,23 @@ func (s *c17Sim) reload(cfg MemoryConfig, crash bool) error {
 	}
 	s.mt, s.cfg = mt, cfg
 	s.reloads++
+	return nil
+}
+
+// probeAll is a full, non-mutating membership comparison: Add of a member and Delete of a non-member must both
+// report false (neither changes the trie).
+func (s *c17Sim) probeAll(pool [][]byte) error {
+	for _, k := range pool {
+		var err error
+		if _, in := s.set[string(k)]; in {
+			err = s.add(k)
+		} else {
+			err = s.del(k)
+		}
+		if err != nil {
+			return fmt.Errorf("membership probe: %v", err)
+		}
+	}
 	return nil
 }
 
@@ -377,6 +401,9 @@ func c17RunSeq(seq []int, uni [][]byte, cfg MemoryConfig, fresh bool) (s *c17Sim
 	if err != nil {
 		return s, err
 	}
+	// under the 2-nodes-per-page config "reload" persists through Evict(true) + reopen (no explicit Commit), under the
+	// other one through Commit + reopen
+	s.viaEvict = cfg.NodesCountPerPage == 2
 	for _, op := range seq {
 		switch {
 		case op < nk:
@@ -393,6 +420,9 @@ func c17RunSeq(seq []int, uni [][]byte, cfg MemoryConfig, fresh bool) (s *c17Sim
 		if err != nil {
 			return s, err
 		}
+	}
+	if err = s.probeAll(uni); err != nil {
+		return s, err
 	}
 	if err = s.checkRoot(); err != nil {
 		return s, err
@@ -491,7 +521,7 @@ func c17Universe(first []byte, second []byte) [][]byte {
 
 func TestVerif_C17_Exhaustive(t *testing.T) {
 	vk := vkBegin(t, "C17")
-	vk.Rule("every add/delete/commit/evict/reload sequence up to a length bound over a tiny key universe, replayed from scratch on a 2- or 3-node-per-page trie with a 1-node cache; Add/Delete booleans vs a map, final root vs the reference hash; non-trivial = a delete collapsed a branch into a leaf and had to load a page from the committer, or a commit reallocated nodes; distinct by op sequence")
+	vk.Rule("every add/delete/commit/evict/reload sequence up to a length bound over a tiny key universe, replayed from scratch on a 2- or 3-node-per-page trie with a 1- or 2-node cache (reload = Evict(true)+reopen under page size 2, Commit+reopen under page size 3); Add/Delete booleans vs a map, full membership probe and root vs the reference hash at the end; non-trivial = a delete collapsed a branch into a leaf and had to load a page from the committer, or a commit reallocated nodes; distinct by op sequence")
 	vk.Assume("crypto/sha512 (reference hash) and the layout documented in node.calculateHash / Trie.RootHash are the specification of the canonical hash")
 	u9 := c17Universe([]byte{0, 1, 2}, []byte{0, 1, 2})
 	u4 := [][]byte{{0, 0}, {0, 1}, {0, 2}, {1, 0}}
@@ -699,9 +729,81 @@ func c17DrawPool(t *rapid.T) (pool [][]byte, mode string) {
 	return pool, mode
 }
 
+// c17EmptyOut drives the trie down to 0..2 elements, persists, deletes the rest, persists again in a drawn way
+// (Evict(true) most often), reopens it (most often without any further commit) and compares membership and root.
+func c17EmptyOut(t *rapid.T, s *c17Sim, pool [][]byte, fp *strings.Builder) error {
+	s.emptyOuts++
+	keep := rapid.SampledFrom([]int{1, 1, 1, 0, 2}).Draw(t, "eoKeep")
+	if keep >= len(pool) {
+		keep = len(pool) - 1
+	}
+	fmt.Fprintf(fp, "E%d", keep)
+	persist := func(name string, choices []string) error {
+		op := rapid.SampledFrom(choices).Draw(t, name)
+		fp.WriteString(op)
+		switch op {
+		case "c":
+			return s.commit()
+		case "e":
+			return s.evict(true)
+		case "e0":
+			return s.evict(false)
+		case "r":
+			return s.checkRoot()
+		}
+		return nil
+	}
+	// make sure there is something to delete
+	for i := 0; len(s.set) < keep || len(s.set) == 0; i++ {
+		if err := s.add(pool[i%len(pool)]); err != nil {
+			return err
+		}
+	}
+	members := s.sorted()
+	if rapid.Bool().Draw(t, "eoDesc") {
+		for i, j := 0, len(members)-1; i < j; i, j = i+1, j-1 {
+			members[i], members[j] = members[j], members[i]
+		}
+	}
+	cut := len(members) - keep
+	for _, k := range members[:cut] {
+		if err := s.del(k); err != nil {
+			return err
+		}
+	}
+	if err := persist("eoPersist1", []string{"c", "e", "e", "r", "-"}); err != nil {
+		return err
+	}
+	for _, k := range members[cut:] {
+		if err := s.del(k); err != nil {
+			return err
+		}
+	}
+	if err := persist("eoPersist2", []string{"e", "e", "e", "e", "e0", "c", "r", "-"}); err != nil {
+		return err
+	}
+	re := rapid.SampledFrom([]string{"X", "X", "L", "-"}).Draw(t, "eoReopen")
+	fp.WriteString(re + ",")
+	switch re {
+	case "X":
+		if err := s.reload(s.cfg, true); err != nil {
+			return err
+		}
+	case "L":
+		s.viaEvict = rapid.Bool().Draw(t, "eoViaEvict")
+		if err := s.reload(s.cfg, false); err != nil {
+			return err
+		}
+	}
+	if err := s.probeAll(pool); err != nil {
+		return err
+	}
+	return s.checkRoot()
+}
+
 func TestVerif_C17_Machine(t *testing.T) {
 	vk := vkBegin(t, "C17")
-	vk.Rule("random histories of 5..2000 add/delete/commit/evict/root/reload/crash-reload/committer-swap operations over a per-case key pool (tiny 2-byte universe; 3..37-byte keys that share long prefixes and differ in one late byte; wide fan-out under one node; uniformly hashed 32/37-byte keys) under a drawn MemoryConfig (page 2..512 nodes, cache 1..200, fill 0.1..1, fan-out threshold 1..64, redrawn at reloads); Add/Delete booleans vs a map, RootHash vs the independent reference hash, final set re-inserted sorted into a fresh trie, then reloaded and drained; non-trivial = a delete collapsed a branch into a leaf and needed a page load from the committer, or a commit reallocated nodes (packing or fan-out); distinct by (config, pool, op sequence)")
+	vk.Rule("random histories of 5..2000 add/delete/commit/evict/root/reload/crash-reload/committer-swap/empty-out operations (empty-out = drain to 0..2 elements, persist, delete the rest, persist through Evict(true)/Evict(false)/Commit/RootHash/nothing, reopen with or without commit, full membership probe) over a per-case key pool (tiny 2-byte universe; 3..37-byte keys that share long prefixes and differ in one late byte; wide fan-out under one node; uniformly hashed 32/37-byte keys) under a drawn MemoryConfig (page 2..512 nodes, cache 1..200, fill 0.1..1, fan-out threshold 1..64, redrawn at reloads); Add/Delete booleans vs a map, RootHash vs the independent reference hash, final set re-inserted sorted into a fresh trie, then reloaded and drained; non-trivial = a delete collapsed a branch into a leaf and needed a page load from the committer, or a commit reallocated nodes (packing or fan-out); distinct by (config, pool, op sequence)")
 	vk.Assume("crypto/sha512 (reference hash) and the layout documented in node.calculateHash / Trie.RootHash are the specification of the canonical hash")
 	rapid.Check(t, func(t *rapid.T) {
 		cfg := c17DrawConfig(t, 0)
@@ -733,6 +835,9 @@ func TestVerif_C17_Machine(t *testing.T) {
 			w := rapid.IntRange(0, 99+4*persist).Draw(t, "op")
 			var err error
 			switch {
+			case w < 2: // drain to (almost) empty around persistence and reopening
+				err = c17EmptyOut(t, s, pool, &fp)
+				present = present[:0]
 			case w < 42: // add
 				ki := rapid.IntRange(0, len(pool)-1).Draw(t, "key")
 				fmt.Fprintf(&fp, "a%d,", ki)
@@ -758,11 +863,18 @@ func TestVerif_C17_Machine(t *testing.T) {
 				if rapid.Bool().Draw(t, "newCfg") {
 					ncfg = c17DrawConfig(t, npp)
 				}
-				fmt.Fprintf(&fp, "L%v,", ncfg)
+				s.viaEvict = rapid.Bool().Draw(t, "reloadViaEvict")
+				fmt.Fprintf(&fp, "L%v%v,", s.viaEvict, ncfg)
 				err = s.reload(ncfg, false)
+				if err == nil {
+					err = s.probeAll(pool)
+				}
 			case w < 87: // crash: abandon uncommitted changes
 				fp.WriteString("X,")
 				err = s.reload(s.cfg, true)
+				if err == nil {
+					err = s.probeAll(pool)
+				}
 				present = present[:0]
 				for ki, k := range pool {
 					if _, ok := s.set[string(k)]; ok {
@@ -799,6 +911,11 @@ func TestVerif_C17_Machine(t *testing.T) {
 				t.Fatalf("op %d: %v", i, err)
 			}
 		}
+		if rapid.IntRange(0, 2).Draw(t, "endEmptyOut") == 0 {
+			if err := c17EmptyOut(t, s, pool, &fp); err != nil {
+				t.Fatalf("closing empty-out: %v", err)
+			}
+		}
 		if err := s.checkRoot(); err != nil {
 			t.Fatalf("final: %v", err)
 		}
@@ -816,6 +933,9 @@ func TestVerif_C17_Machine(t *testing.T) {
 		s.swap()
 		if err := s.reload(c17DrawConfig(t, npp), false); err != nil {
 			t.Fatalf("final reload: %v", err)
+		}
+		if err := s.probeAll(pool); err != nil {
+			t.Fatalf("after final reload: %v", err)
 		}
 		if err := s.checkRoot(); err != nil {
 			t.Fatalf("after final reload: %v", err)
@@ -848,6 +968,19 @@ func TestVerif_C17_Machine(t *testing.T) {
 		}
 		if err := s.checkRoot(); err != nil || len(s.set) != 0 {
 			t.Fatalf("after drain: %v (model size %d)", err, len(s.set))
+		}
+		// the emptied trie, reopened from storage without any further commit, must still be empty
+		if err := s.reload(s.cfg, true); err != nil {
+			t.Fatalf("reopen after drain: %v", err)
+		}
+		if err := s.probeAll(pool); err != nil {
+			t.Fatalf("reopen after drain: %v", err)
+		}
+		if err := s.checkRoot(); err != nil || len(s.set) != 0 {
+			t.Fatalf("reopen after drain: %v (model size %d)", err, len(s.set))
+		}
+		if s.emptyOuts > 0 {
+			vk.Label("empty-out macro")
 		}
 
 		nt := s.collapseReload > 0 || s.packRealloc > 0 || s.fanRealloc > 0
